@@ -315,7 +315,14 @@ class DebianVersion(Version):
 
     @classmethod
     def is_valid(cls, string):
-        return debian.Version.is_valid(string)
+        if not debian.Version.is_valid(string):
+            return False
+        try:
+            # such as for an epoch that is too large to be an integer
+            cls.build_value(string)
+            return True
+        except ValueError:
+            return False
 
 
 class MavenVersion(Version):
